@@ -3,7 +3,7 @@
    Lists stand for Go slices AND for maps in iteration order, so "forall actors" quantifies over
    every departed-node state and every map iteration order; roles are nats (0 = no role). *)
 From Coq Require Import List ZArith Bool Arith Permutation.
-From GV Require Import C32.Model C32.Proofs C32.Grains C32.Reassign C32.Plan C32.Examples.
+From GV Require Import Lib.GoInt Gen.C32 C32.Model C32.Proofs C32.Grains C32.Reassign C32.Plan C32.Examples C32.GenBridge.
 Import ListNotations.
 Open Scope Z_scope.
 
@@ -157,6 +157,16 @@ Theorem C32_spread_exactly_once : forall k (grains : list wgrain), (0 < k)%nat -
   length (spread k grains) = k /\ Permutation (concat (spread k grains)) grains.
 Proof. intros. apply spread_perm. assumption. Qed.
 
+(* the quotient/remainder arithmetic goq regenerates from actor/relocation_worker.go on every run is the
+   model's, for every Go-int grain count and every totalPeers >= 1 *)
+Theorem C32_grain_arithmetic_from_source : forall grainCount totalPeers,
+  0 <= grainCount <= max_i64 -> 1 <= totalPeers ->
+  allocateGrains_quotient grainCount totalPeers = ag_quotient grainCount totalPeers /\
+  allocateGrains_remainder grainCount totalPeers = ag_remainder grainCount totalPeers.
+Proof.
+  intros n t Hn Ht. split; [apply generated_quotient_is_model|apply generated_remainder_is_model]; assumption.
+Qed.
+
 Print Assumptions C32_actors_partition.
 Print Assumptions C32_assigned_target_advertises_role.
 Print Assumptions C32_unplaceable_iff_no_target.
@@ -174,3 +184,4 @@ Print Assumptions C32_reassign_partition.
 Print Assumptions C32_reassign_roles.
 Print Assumptions C32_reassign_least_loaded.
 Print Assumptions C32_spread_exactly_once.
+Print Assumptions C32_grain_arithmetic_from_source.
